@@ -68,8 +68,10 @@ def merge_cases(pid, tier, seed):
     # G-hist: every step of seeded random histories run on live objects ("from every reachable state")
     n_hist = 150 if tier == 'quick' else 1500
     hists = hist_run.run_histories([seed * 100003 + k for k in range(n_hist)],
-                                   max_steps=12 if tier == 'quick' else 40)
+                                   max_steps=12 if tier == 'quick' else 40, live=True)
     cases += hist_run.history_cases(hists)
+    # scripted: a message object is added, its content edited in the running order, and the same object added again
+    cases += hist_run.history_cases(hist_run.run_reuse_histories())
     return cases
 
 
